@@ -273,3 +273,40 @@ def records(chk, tier, invs, runs=None):
             yield r, ground, cfg
         if n == 0:
             raise C.Machinery('no dump records from TLC (%s)' % cfg)
+
+
+def spec_records(chk, inputs, ground, name='on'):
+    """Runs spec/TopologyOn.tla on the given abstract object lists (point ids: free 1..99,
+       ground 101..) and returns the dumped records in the order of the inputs.  All Topology
+       invariants are checked by TLC on every list."""
+    import os, json
+    from . import common as C
+    if not inputs:
+        return []
+    wd = C.workdir('on-' + name)
+    tf = os.path.join(wd, 'inputs.json')
+    json.dump(inputs, open(tf, 'w'))
+    nfree = max([p for inp in inputs for o in inp for p in (o['p1'], o['p2']) if p < 100] + [1])
+    ngnd = max([p - 100 for inp in inputs for o in inp for p in (o['p1'], o['p2']) if p > 100] + [1])
+    cfg = os.path.join(wd, 'On.cfg')
+    invs = ['CountFormula', 'ObjectOrder', 'SegJoint', 'JoinedIffSamePoint', 'JunctionCount',
+            'OwnerIsLaterTag', 'TagOrder', 'AddrFormsAgree', 'AllOnce', 'KCL', 'FreeEndZero',
+            'JunctionEndIsSum']
+    open(cfg, 'w').write(
+        'CONSTANTS NObjMax = 99\n MaxSeg = 999\n NFree = %d\n NGnd = %d\n HasGround = %s\n MaxTag = 99\n'
+        'INIT InitOn\nNEXT NextOn\n%s\nINVARIANT DumpOn\nINVARIANT RejectOn\nCHECK_DEADLOCK FALSE\n'
+        % (nfree, ngnd, 'TRUE' if ground else 'FALSE', '\n'.join('INVARIANT ' + x for x in invs)))
+    res = C.tlc('TopologyOn', os.path.relpath(cfg, C.SPEC), name='on-run-' + name, workers=4,
+                env=dict(TRACE_FILE=tf), timeout=1500)
+    if res.violated:
+        raise C.Machinery('Topology invariant %s violated on a given object list (%s)' % (res.violated, name))
+    if not res.ok:
+        raise C.Machinery('TLC failed on TopologyOn: ' + res.out[-1500:])
+    if chk is not None:
+        chk.add_tlc(res)
+    out = {}
+    for d in res.printed():
+        out[d['tid']] = d['rec']
+    if len(out) != len(inputs):
+        raise C.Machinery('TopologyOn returned %d records for %d inputs' % (len(out), len(inputs)))
+    return [out[i + 1] for i in range(len(inputs))]
